@@ -179,8 +179,17 @@ def runDinicBounded (inp : Inp) (fuel : Nat) (B : Int) (trueFlow : Option Int) :
     | none => { pre := pre, flow := "STUCK", assign := "STUCK", res := [], stuck := true }
     | some (d, b') =>
       let a := d.assignment? inp.s
+      -- family bounded-rerun: the object is run again `rr` times (run() under the stored bound / a new bound
+      -- i32::MAX alternating); modelled by `InertialFlow.rerunHistory` (the repaired loop continues from the
+      -- stored flow counter)
+      let (f2, a2) :=
+        if inp.rr > 0 && inp.rr ≤ 64 then
+          match InertialFlow.rerunHistory fuel inp.rr 0 d b' with
+          | some (d2, _) => (some (outIntS d2.maxFlow?), some (outBitsS (d2.assignment? inp.s)))
+          | none => (some "STUCK", some "STUCK")
+        else (none, none)
       { pre := pre, flow := outIntS d.maxFlow?, assign := outBitsS a, res := d.g.triples,
-        stuck := a matches .stuck, bound := some b',
+        stuck := a matches .stuck, bound := some b', flow2 := f2, assign2 := a2,
         free := match trueFlow with
                 | some f => decide (B < f)
                 | none => true }
@@ -304,6 +313,21 @@ def handle (withPre withAssign : Bool) (c : Case) : CaseOut := Id.run do
         else if f ≤ B then
           verdict := .fail s!"{solver}: run_with_upper_bound({B}) ended without a result although the maximum flow {f} does not exceed the bound"
         else
+          -- the aborted object run again: from the second additional run on one of the runs was
+          -- `run_with_upper_bound(i32::MAX)`, which cannot abort, so the object has completed a run and must
+          -- report the maximum flow and the canonical cut (what the unbounded model run, proved correct, reports)
+          if inp.rr ≥ 2 then
+            match obsField c.impl "D" solver "flow2" with
+            | some f2 =>
+              if f2 != toString f then
+                verdict := .fail s!"{solver}: aborted at bound {B}, then run {inp.rr} more times (the second under a new bound i32::MAX): max_flow() reports {f2}, the maximum flow is {f}"
+            | none => verdict := .fail s!"{solver}: no observation after the additional runs"
+            if withAssign && (verdict matches .ok) then
+              match obsField c.impl "D" solver "assign2" with
+              | some a2 =>
+                if a2 != od.assign then
+                  verdict := .fail s!"{solver}: aborted at bound {B}, then completed under a new bound: assignment() reports {a2}, the canonical cut is {od.assign}"
+              | none => verdict := .fail s!"{solver}: no assignment observation after the additional runs"
           continue
       | _, _ => pure ()
     let some x := parseInt? flowS
